@@ -1,0 +1,176 @@
+//go:build verif
+
+package excelize
+
+import (
+	"bytes"
+	"fmt"
+	"io"
+	"strconv"
+	"strings"
+)
+
+// verifC02Strings returns the shared string items without touching the File.
+func verifC02Strings(f *File) []xlsxSI {
+	if f.SharedStrings != nil {
+		return f.SharedStrings.SI
+	}
+	var sst xlsxSST
+	b := f.readXML(defaultXMLPathSharedStrings)
+	if len(b) == 0 {
+		return nil
+	}
+	_ = f.xmlNewDecoder(bytes.NewReader(namespaceStrictToTransitional(b))).Decode(&sst)
+	return sst.SI
+}
+
+func verifC02Dash(s string) string {
+	if s == "" {
+		return "-"
+	}
+	return s
+}
+
+// verifC02Content prints s:t:v:f of a cell; a shared string index is resolved
+// to its text (the model abstracts the table away).
+func verifC02Content(c *xlsxC, sst []xlsxSI) string {
+	v := c.V
+	if c.T == "s" {
+		if i, err := strconv.Atoi(strings.TrimSpace(c.V)); err == nil && i >= 0 && i < len(sst) {
+			if sst[i].T != nil { // the stored text, not its bstrUnmarshal reading (C01/C03)
+				v = sst[i].T.Val
+			} else {
+				v = sst[i].String()
+			}
+		} else {
+			v = "?" + c.V
+		}
+	} else if c.T == "inlineStr" && c.IS != nil {
+		v = c.IS.String()
+	}
+	fs := "~"
+	if c.F != nil {
+		fs = verifHex(c.F.Content)
+	}
+	return fmt.Sprintf("%d:%s:%s:%s", c.S, verifC02Dash(c.T), verifHex(v), fs)
+}
+
+func verifC02Rows(b *strings.Builder, rows []xlsxRow, sst []xlsxSI) (dense int) {
+	dense = 1
+	fmt.Fprintf(b, "rows=%d", len(rows))
+	for i := range rows {
+		row := &rows[i]
+		if row.R != i+1 {
+			dense = 0
+		}
+		h := 0
+		if row.Hidden {
+			h = 1
+		}
+		fmt.Fprintf(b, " | R%d h%d n%d", row.R, h, len(row.C))
+		for j := range row.C {
+			c := &row.C[j]
+			col, rw, err := CellNameToCoordinates(c.R)
+			if err != nil {
+				fmt.Fprintf(b, " ?%s=", verifHex(c.R))
+				dense = 0
+			} else {
+				fmt.Fprintf(b, " %d.%d=", col, rw)
+				if col != j+1 || rw != i+1 {
+					dense = 0
+				}
+			}
+			b.WriteString(verifC02Content(c, sst))
+		}
+	}
+	return
+}
+
+func verifC02Bit(ok bool) int {
+	if ok {
+		return 1
+	}
+	return 0
+}
+
+// VerifC02Dump prints the cached worksheet exactly as it is laid out in memory
+// (every row slot and every cell slot with its stored reference, blank cells
+// included), whether the part is in File.checked, and whether the dense-grid
+// invariant holds. It never loads, stores or evicts anything.
+func VerifC02Dump(f *File, sheet string) string {
+	name, ok := f.getSheetXMLPath(sheet)
+	if !ok {
+		return "ERR"
+	}
+	_, checked := f.checked.Load(name)
+	w, ok := f.Sheet.Load(name)
+	if !ok || w == nil {
+		return fmt.Sprintf("evicted k=%d", verifC02Bit(checked))
+	}
+	ws := w.(*xlsxWorksheet)
+	var b strings.Builder
+	dense := verifC02Rows(&b, ws.SheetData.Row, verifC02Strings(f))
+	fmt.Fprintf(&b, " k=%d dense=%d", verifC02Bit(checked), dense)
+	return b.String()
+}
+
+// VerifC02Part decodes the stored bytes of the worksheet part (no checkSheet /
+// checkRow) and prints its rows; "part none" when the part has no bytes.
+func VerifC02Part(f *File, sheet string) string {
+	name, ok := f.getSheetXMLPath(sheet)
+	if !ok {
+		return "ERR"
+	}
+	content := f.readBytes(name)
+	if len(content) == 0 {
+		return "part none"
+	}
+	ws := new(xlsxWorksheet)
+	if err := f.xmlNewDecoder(bytes.NewReader(namespaceStrictToTransitional(content))).Decode(ws); err != nil && err != io.EOF {
+		return "ERR"
+	}
+	var b strings.Builder
+	b.WriteString("part ")
+	verifC02Rows(&b, ws.SheetData.Row, verifC02Strings(f))
+	return b.String()
+}
+
+// VerifC02Get runs the getters' common lookup (getCellStringFunc) with a
+// callback that always answers and prints the cell it finds, then the formula
+// GetCellFormula finds.
+func VerifC02Get(f *File, sheet, cell string) string {
+	sst := verifC02Strings(f)
+	found := false
+	c, err := f.getCellStringFunc(sheet, cell, func(x *xlsxWorksheet, c *xlsxC) (string, bool, error) {
+		found = true
+		return verifC02Content(c, sst), true, nil
+	})
+	if err != nil {
+		return "ERR"
+	}
+	if !found {
+		c = "0:-:-:~"
+	}
+	fm := "~"
+	found = false
+	fs, err := f.getCellStringFunc(sheet, cell, func(x *xlsxWorksheet, c *xlsxC) (string, bool, error) {
+		if c.F == nil {
+			return "", false, nil
+		}
+		found = true
+		return verifHex(c.F.Content), true, nil
+	})
+	if err != nil {
+		return "ERR"
+	}
+	if found {
+		fm = fs
+	}
+	return "c=" + c + " f=" + fm
+}
+
+// VerifC02Path returns the package path of the worksheet part of a sheet.
+func VerifC02Path(f *File, sheet string) string {
+	name, _ := f.getSheetXMLPath(sheet)
+	return name
+}
